@@ -356,6 +356,8 @@ def run(ctx, selftest=False):
         # development aid for mutant campaigns: the design-level runs do not depend on /repo
         ctx.notes.append('design-level model checking skipped (VERIF_C04_SKIP_MC)')
     elif thorough:
+        r = ctx.tlc_expect_ok(SPEC, 'MC_Decode.tla', 'MC_Decode_sep.cfg', workers=vlib.NCPU, timeout=3000)
+        ctx.log('MC_Decode (separately named invariants): %d words' % (r.distinct // 2))
         r = ctx.tlc_expect_ok(SPEC, 'MC_Decode.tla', 'MC_Decode_wide.cfg', workers=vlib.NCPU, timeout=3000)
         ctx.cov['exhaustive'] = True
     else:
@@ -389,8 +391,9 @@ def run(ctx, selftest=False):
     for i in range(chunks):
         t = os.path.join(ctx.scratch, 'trace_rand_%d.ndjson' % i)
         args = ['-golden', GOLDEN, '-random', per, '-seed', ctx.seed * 1000 + i]
-        if i == 0:
-            args += ['-kernels', vlib.REPO, '-kmod', kmod]
+        # chunk 0 decodes the shipped kernels of the tier; later chunks a few of them, whose
+        # instruction words are the base of the mutated-word class
+        args += ['-kernels', vlib.REPO, '-kmod', kmod if i == 0 else 9]
         args += ['-out']
         st = run_driver(ctx, drv, args + [t])
         ctx.log('kernels + random words [%d]: %s' % (i, st))
